@@ -17,6 +17,7 @@
 #define VP_SYM(lv) do { __typeof__(lv) vp_nd_; (lv) = vp_nd_; } while (0)
 #define VP_SYM_IDX(arr, i) do { __typeof__((arr)[0]) vp_nd_; (arr)[i] = vp_nd_; } while (0)
 #define VP_SYM_IDX2(arr, i, j) do { __typeof__((arr)[0][0]) vp_nd_; (arr)[i][j] = vp_nd_; } while (0)
+#define VP_SYM_IDXF(arr, i, f) do { __typeof__((arr)[0].f) vp_nd_; (arr)[i].f = vp_nd_; } while (0)
 #ifdef VP_WITNESS
 #define VP_END() __CPROVER_assert(0, "VP_WITNESS")
 #else
@@ -33,8 +34,13 @@ long long vp_get (const char *key);
 #define VP_SYM(lv) ((lv) = (__typeof__(lv)) vp_get (#lv))
 #define VP_SYM_IDX(arr, i) do { char vp_k_[128]; snprintf (vp_k_, sizeof vp_k_, "%s[%d]", #arr, (int)(i)); (arr)[i] = (__typeof__((arr)[0])) vp_get (vp_k_); } while (0)
 #define VP_SYM_IDX2(arr, i, j) do { char vp_k_[128]; snprintf (vp_k_, sizeof vp_k_, "%s[%d][%d]", #arr, (int)(i), (int)(j)); (arr)[i][j] = (__typeof__((arr)[0][0])) vp_get (vp_k_); } while (0)
+#define VP_SYM_IDXF(arr, i, f) do { char vp_k_[128]; snprintf (vp_k_, sizeof vp_k_, "%s[%d].%s", #arr, (int)(i), #f); (arr)[i].f = (__typeof__((arr)[0].f)) vp_get (vp_k_); } while (0)
 #define VP_END() do { fprintf (stderr, "VP_REPLAY_END\n"); } while (0)
 #define VP_NOTE(...) fprintf (stderr, __VA_ARGS__)
 #endif
+
+/* boxes (x1,y1,x2,y2) field-wise, so that traces map back by name */
+#define VP_SYM_BOX(b) do { VP_SYM ((b).x1); VP_SYM ((b).y1); VP_SYM ((b).x2); VP_SYM ((b).y2); } while (0)
+#define VP_SYM_BOX_IDX(arr, i) do { VP_SYM_IDXF (arr, i, x1); VP_SYM_IDXF (arr, i, y1); VP_SYM_IDXF (arr, i, x2); VP_SYM_IDXF (arr, i, y2); } while (0)
 
 #endif
